@@ -12,7 +12,7 @@ LEVEL = 'exploration'
 RULE = ('curve x grid x history x trial leaf x time class {t_start, before, inside, t_end, shortly/far after, times with '
         'parabolic ratio h^2/tau in [0.5, 16]} x position class {interior, exact end points, 1e-8..1e-2 h outside, '
         '1e-2..3 h outside, 0, L, Gauss nodes of other elements, uniform, across the seam, on the neighbouring side} -- '
-        'evaluate vs a 1-D graded reference integral at two resolutions with the three tolerances of the property '
+        'operator built after the history or kept across it with the leaves re-registered as the adaptive driver does -- evaluate vs a 1-D graded reference integral at two resolutions with the three tolerances of the property '
         '(1e-8 in the closed element, 2e-3 in the near layer, 5e-4 beyond 1 %), evaluate_exact on the same straight side '
         '(1e-7), evaluate_vector == element-wise evaluate (bitwise), and the integral clause: a tensor Gauss integral of '
         'evaluate / evaluate_exact over a later test element reproduces bilform. Excluded and counted: interior points '
@@ -34,8 +34,20 @@ def rel(val, ref):
 def point_body(case, rec):
     rec.case()
     from vlib.meshdrive import exc_site
+    holder = {}
+    lifecycle = case['xi'] % 3 == 0
+
+    def hook(lv, i):
+        # the adaptive driver keeps ONE operator across its loops: it is constructed on the initial mesh and the
+        # current leaves are registered again (ErrorEstimator.residual -> SL._init_elems) after each refinement step
+        from src.single_layer import SingleLayerOperator
+        with repo.quiet():
+            if i == 0:
+                holder['SL'] = SingleLayerOperator(lv.mesh, pw_exact=False)
+            elif i % 2 == 0:
+                holder['SL']._init_elems(list(lv.mesh.leaf_elements))
     try:
-        live, e, t, x, info = points.realise(case)
+        live, e, t, x, info = points.realise(case, hook if lifecycle else None)
     except Exception as ex:
         if exc_site(ex) == 'harness':
             raise
@@ -68,7 +80,13 @@ def point_body(case, rec):
     if rel(ref2, ref) > tol / 100:
         rec.inconclusive += 1
         return
-    SL = operator(live, False)
+    if lifecycle:
+        SL = holder['SL']
+        with repo.quiet():
+            SL._init_elems(list(live.mesh.leaf_elements))
+        rec.cls('operator_kept_across_refinements')
+    else:
+        SL = operator(live, False)
     try:
         with repo.quiet():
             val = float(SL.evaluate(e, t, x, P))
